@@ -21,6 +21,10 @@ type Refil struct {
 	// Pre[i]: parent writes (apply, or delete when Labels is nil and RV is "del")
 	// made and drained before the i-th Refilter of a long sequence
 	Pre [][]world.Spec `json:"pre,omitempty"`
+	// NoWait[i]: the (i+1)-th Refilter is issued right behind the i-th, without
+	// waiting for anything in between (what a join does on a burst of source
+	// events): the per-call delta is then not observable, the final view is
+	NoWait []bool `json:"no_wait,omitempty"`
 	Sim     SimCfg             `json:"sim"`
 }
 
@@ -79,6 +83,16 @@ func genC07(g GenCtx) interface{} {
 			sc.Pre = append(sc.Pre, pre)
 		}
 	}
+	if len(sc.Pre) == 0 && rng.Intn(5) == 0 {
+		// two or three refilters back to back
+		for len(sc.Filters) < 3+rng.Intn(2) {
+			sc.Filters = append(sc.Filters, randFilter(rng))
+		}
+		sc.NoWait = make([]bool, len(sc.Filters))
+		for i := 1; i+1 < len(sc.Filters); i++ {
+			sc.NoWait[i] = true
+		}
+	}
 	sc.Kind = pick(rng, "subf", "subf", "clonef")
 	sc.Touch = rng.Intn(4) == 0
 	sc.Sim = SimCfg{Strategy: randStrategy(rng, libGoroutines), PermuteMaps: true, MaxSteps: 100000, EstSteps: 1500}
@@ -127,6 +141,7 @@ func runC07(sci interface{}) {
 		detsim.Fail("unexpected-events", "%s received %v before any Refilter or parent change", reader.Name(), world.Sigs(reader.Events))
 	}
 	cur := sc.Filters[0]
+	chained := false
 	for step, f := range sc.Filters[1:] {
 		if sc.Touch && step == 1 {
 			// a parent change between two refilters, drained before the next one
@@ -154,7 +169,22 @@ func runC07(sci interface{}) {
 		if err := h.Refilter(fnode, f); err != nil {
 			detsim.Fail("api-error", "Refilter on a running node: %v", err)
 		}
+		// sc.Filters[step+1] == f; NoWait is indexed like sc.Filters
+		if step+1 < len(sc.NoWait) && sc.NoWait[step+1] {
+			detsim.Count("probe:refilter-back-to-back")
+			chained = true
+			cur = f
+			continue // the next Refilter follows at once
+		}
 		detsim.Settle()
+		if chained {
+			// only the outcome of the chain is defined: the view of the LAST filter
+			// (cache == filter over parent, mirror == cache)
+			chained = false
+			h.CheckTree("")
+			cur = f
+			continue
+		}
 		pred := f.Pred()
 		var want []string
 		inBefore := map[string]bool{}
